@@ -270,6 +270,7 @@ namespace sqf::parser::sqf
                         if (is_match<'\''>(iter) && is_match<'\''>(iter + 1))
                         {
                             ++iter;
+                            m_column++; // the doubled quote is two characters of the line
                         }
                         else if (is_match<'\''>(iter))
                         {
@@ -308,6 +309,7 @@ namespace sqf::parser::sqf
                         if (is_match<'"'>(iter) && is_match<'"'>(iter + 1))
                         {
                             ++iter;
+                            m_column++; // the doubled quote is two characters of the line
                         }
                         else if (is_match<'"'>(iter))
                         {
